@@ -478,3 +478,27 @@ def replay(ctx, rec):
     v, pos, clause = ctx.validate_traces("EqArithTrace", "EqArithTrace.cfg", [tr])[0]
     if v != "accept" and not clause.startswith("outside:"):
         ctx.violation(rec["key"], {"observed": tr[pos - 1].get("obs"), "verdict": {"verdict": v, "pos": pos, "clause": clause}})
+
+
+# ---- extra stage (maintainer): ArithmeticDict register machine (spec/ArithDict.tla); C11's
+# mechanism list names "ArithmeticDict scalar multiplication" as what the arithmetic rests on.
+_run_eqarith = run
+
+
+def run(ctx):  # noqa: F811
+    _run_eqarith(ctx)
+    import arithdict_stage
+    arithdict_stage.run_stage(ctx)
+
+
+_replay_eqarith = replay
+
+
+def replay(ctx, rec):  # noqa: F811
+    if rec.get("kind") == "arithdict":
+        import arithdict_stage
+        bad = arithdict_stage.replay_history(rec["case"])
+        if bad:
+            ctx.violation(rec["key"], {"observed": bad[0], "expected": bad[1]})
+    else:
+        _replay_eqarith(ctx, rec)
